@@ -120,6 +120,7 @@ func checkC15(c *Ctx) {
 	// stricter than the grammar (letters and digits only, no hyphen, no leading digit) turns a consistent renaming into an error.
 	r.Rule("C15.O7", "prefix names are not validated more strictly than the compact-IRI grammar admits", 1)
 	c15PrefixNames(c)
+	c15NoEarlyStop(c)
 
 	// ---- O5: quoting, escapes and block styles are decoded by yaml.v3; that only holds when yaml.v3 sees the profile text
 	// itself. Editing the text first (expanding tabs, trimming, replacing) changes scalars written with one quoting style and
@@ -987,4 +988,106 @@ func c15PrefixNames(c *Ctx) {
 	if n == 0 {
 		r.OK("C15.O7", "census", "", fmt.Sprintf("%d prefix-table function(s): no pattern is applied to prefix names", len(roots)))
 	}
+	// the same for the {{prefix.name}} placeholders of messages: the pattern that finds them must find a placeholder
+	// whatever admissible prefix name it uses, and capture it whole
+	for _, fn := range p.ModuleFuncs() {
+		if RelPkg(fn) != "internal/parser/profile" || fn.Signature.Results().Len() != 1 || typeName(fn.Signature.Results().At(0).Type()) != "Message" {
+			continue
+		}
+		for _, sub := range samePkgReach(p, fn) {
+			for _, b := range sub.Blocks {
+				for _, ins := range b.Instrs {
+					call, ok := ins.(*ssa.Call)
+					if !ok || !strings.HasPrefix(funcFullName(ssaCalleeObj(call)), "(*regexp.Regexp).Find") {
+						continue
+					}
+					k := FuncKey(sub) + "#placeholder-pattern"
+					pat, okPat := regexpPatternOf(call.Call.Args[0])
+					if !okPat {
+						r.Unknown("C15.O7", k, p.Pos(ins.Pos()), "the pattern that finds message placeholders is not a constant")
+						continue
+					}
+					re, err := regexp.Compile(pat)
+					if err != nil {
+						r.Unknown("C15.O7", k, p.Pos(ins.Pos()), "the pattern does not compile: "+err.Error())
+						continue
+					}
+					if re.FindStringSubmatch("{{ab.name}}") == nil {
+						continue // not the placeholder pattern
+					}
+					var rejected []rune
+					for _, ch := range chars {
+						if unicode.IsSpace(ch) {
+							continue
+						}
+						for _, prefix := range []string{"a" + string(ch) + "b", string(ch) + "a", "a" + string(ch)} {
+							m := re.FindStringSubmatch("see {{" + prefix + ".name}} here")
+							found := false
+							for _, g := range m {
+								if g == prefix+".name" {
+									found = true
+								}
+							}
+							if !found {
+								rejected = append(rejected, ch)
+								break
+							}
+						}
+					}
+					r.Check(len(rejected) == 0, "C15.O7", k, p.Pos(ins.Pos()), "message placeholders are found for every prefix name the grammar admits", fmt.Sprintf("the pattern %q that finds {{prefix.name}} placeholders does not find them when the prefix contains %s, which the compact-IRI grammar admits: the same profile with its prefix consistently renamed prints the raw placeholder instead of the value", pat, quoteRunes(rejected)))
+				}
+			}
+		}
+	}
+}
+
+// c15NoEarlyStop (O8): the lists the profile parser builds from the sequences and mappings of the profile (the names of a
+// level list, the operands of and / or, the entries of a mapping) must not depend on the position of an entry, so no
+// loop that fills such a list may stop early: a `break` (or a return that is not an error exit) after which later
+// entries are never looked at makes the result depend on the order the profile lists them in.  Decided on the values the
+// functions build (E-sym): what a loop appends after a statement that may have ended the loop is marked, however the
+// loop and its guards are written; `continue` (this entry is skipped, the others are not) and error exits are fine.
+func c15NoEarlyStop(c *Ctx) {
+	r, p := c.R, c.P
+	r.Rule("C15.O8", "no loop of the profile parser that fills a list stops early: later entries are always looked at", 1)
+	n := 0
+	for _, rel := range []string{"internal/parser/profile", "internal/parser/yaml"} {
+		pk := p.Pkg(rel)
+		if pk == nil {
+			continue
+		}
+		for _, f := range pk.Syntax {
+			for _, d := range f.Decls {
+				fd, ok := d.(*ast.FuncDecl)
+				if !ok || fd.Body == nil {
+					continue
+				}
+				n++
+				var bad []string
+				look := func(v *Sym) {
+					v.Walk(func(q *Sym) {
+						if q.K == symWhen && q.Fn == "stopped" {
+							bad = append(bad, shortFormat(q.Name))
+						}
+					})
+				}
+				proto := &symWalker{}
+				proto.OnReturn = func(w *symWalker, ret *ast.ReturnStmt, results []*Sym) {
+					for _, v := range results {
+						look(v)
+					}
+				}
+				proto.OnStore = func(w *symWalker, at ast.Node, target *Sym, key *Sym, val *Sym) { look(val) }
+				p.SymWalk(pk, fd, proto, nil)
+				if len(bad) > 0 {
+					name := fd.Name.Name
+					if rn := recvName(fd); rn != "" {
+						name = rn + "." + name
+					}
+					r.Bad("C15.O8", relOf(pk)+"."+name+"#stops-early", p.Pos(fd.Pos()), "a list built here receives entries only while "+bad[0]+": once the loop has been stopped the remaining entries of the profile's list are ignored, so the result depends on the order in which the profile lists them")
+				}
+			}
+		}
+	}
+	r.OK("C15.O8", "census", "", fmt.Sprintf("%d functions of the profile and YAML parsers evaluated: no list is filled by a loop that can stop early", n))
 }
